@@ -51,9 +51,17 @@ def gen_case(rng, tier, avoid):
     ocs = [gen.pick(rng, C.sym_ocs_choices(rng)[:9]) for _ in range(2)]
     prior = [None, {'n': rng.randint(1, 3000), 'seed': rng.randrange(1 << 16)} if rng.random() < 0.3 else None]
     ops = spec.ops
+    relabel = None
+    if rng.random() < 0.2:
+        # the same DLISFile written again after its label was changed (next unit of a storage set, other record length)
+        relabel = [{'op': 'set_sul', 'fid': 'f0', 'prop': 'sequence_number', 'v': rng.choice([2, 17, 9999])}]
+        if rng.random() < 0.6:
+            relabel.append({'op': 'set_sul', 'fid': 'f0', 'prop': 'set_identifier', 'v': 'NEXT-UNIT-%d' % rng.randint(0, 99)})
+        if rng.random() < 0.6:
+            relabel.append({'op': 'set_sul', 'fid': 'f0', 'prop': 'max_record_length', 'v': 2 * rng.randint(16, 600)})
     if rng.random() < 0.2:
         ops = gen.noise_file(rng) + ops          # process history: another file (other record length) written first
-    return {'scenario': {'env': {'tz': 'UTC'}, 'history': ops}, 'params': {'ocs': ocs, 'prior': prior}}
+    return {'scenario': {'env': {'tz': 'UTC'}, 'history': ops}, 'params': {'ocs': ocs, 'prior': prior, 'relabel': relabel}}
 
 
 def check_case(case, ex):
@@ -110,4 +118,21 @@ def check_case(case, ex):
                 break
         stats['state_sigs'].append('mrl%d|%s|fl%d|seg%d' % (mrl if mrl <= 256 else 999, C.ocs_class(sym), min(nfl, 9),
                                                             min(nseg_multi, 9)))
+    rl = case['params'].get('relabel')
+    if rl:
+        # write, change the label, write again: the second file carries the label as configured now
+        new_mrl = next((x['v'] for x in rl if x['prop'] == 'max_record_length'), mrl)
+        w1 = C.wop(fid, output_chunk_size=max(mrl, 64) + 20, path='unit1.dlis')
+        w2 = C.wop(fid, output_chunk_size=max(new_mrl, 64) + 20, path='unit2.dlis')
+        sc, res = C.run(case, ex, [w1] + rl + [w2], stats)
+        st = C.last_write(res)
+        if st is not None and st['out'] == 'ok' and st.get('file') is not None:
+            m = M.build(sc['history'], res['steps'])
+            v, fr = I.layout(st['file'], m.files[fid])
+            for x in v:
+                x['fp'].update({'after_relabel': True})
+            out.extend(v)
+            C.bump(stats['probes'], 'rewritten_after_label_change')
+        elif st is not None:
+            C.bump(stats['probes'], 'relabel_write_raised')
     return {'violations': out, 'stats': stats}
